@@ -27,21 +27,33 @@ RULE = ("model stream: random well-formed trees of the modelled subset (literals
         "lists/fences/callouts/tables) plus every whole file, fenced block, test string and single statement of the seed "
         "corpus (/repo/docs, examples, tests, machines).  non-trivial = distinct program with verdict ok")
 ASSUMPTIONS = [
-    "MODELLED SUBSET (theorem fmt_parse + comparison (1) formatter text == model text + comparison (2)): number/string/"
+    "MODELLED SUBSET (theorem C08_fmt_parse + comparison (1) formatter text == model text + comparison (2)): number/string/"
     "bool/atom literals (numbers as opaque numeric text, no scientific notation), typed literals, variables with <k> and "
-    "<[k]:r,c> kinds, formulas over every binary operator with explicit parentheses, unary - and ¬, transpose, ranges, "
-    "matrices, sets, tuples (0 or >=2 elements), records, calls with named arguments, dot and bracket subscripts, "
-    "define/assign/op-assign/expression statements",
+    "<[k]:r,c> kinds, formulas over all 38 binary operators with explicit parentheses, unary - and ¬, transpose, ranges "
+    "with/without increment, matrices (0..n rows), sets, tuples (0 or >=2 elements), records, calls with named arguments, "
+    "dot and bracket subscripts (entries: `:`, range, formula not beginning with an atom), define/assign/op-assign/"
+    "expression statements, one statement per line",
     "ONLY comparison (2) (differential on the implementation, no model): enums, kind defines, functions, match, state machines, "
-    "comprehensions, tables, maps, tuple-structs, tuple destructuring, option/set/map/tuple/record kinds, comments, "
-    "scientific / negative-imaginary literals, strings with escapes, swizzles, brace subscripts, all Mechdown prose",
-    "the Coq theorems are at token level: blanks/newlines are tokens, the text is the concatenation of token texts; that the "
-    "real grapheme-level nom parser reads the canonical text back as these tokens is covered by comparison (2) only "
-    "(lexical side conditions ident_ok/num_ok/str_ok are checked by the judge on every modelled case)",
+    "comprehensions, tables, maps, tuple-structs, tuple destructuring, option/set/map/tuple/record/table kinds, comments, "
+    "scientific / negative-imaginary literals, strings with escapes, raw strings, swizzles, brace subscripts, all Mechdown prose",
+    "the Coq theorems are at token level: blanks/newlines are tokens, the text is the concatenation of token texts "
+    "(C08_symbols_unambiguous: distinct symbols have distinct texts); that the real grapheme-level nom parser reads the "
+    "canonical text back as these tokens is covered by comparison (2) only (lexical side conditions ident_ok/num_ok/str_ok "
+    "are checked by the judge on every modelled case; the one known lexical clash, `x.a,y`, is the class comma-swizzle)",
+    "a modelled case is `ok` only if the formatter's text is exactly the canonical text of the model and the implementation "
+    "re-parses it to the same tree and re-formats it to the same text; inside a defect class the verdict (kf id) requires "
+    "the text to be exactly the text the model of formatter.rs predicts (or the panic it predicts) and a failed round trip; "
+    "the canonical text is accepted inside the classes too, so the check stays valid after proposed/C08-1 and C08-2 are applied "
+    "(C08-3 changes the canonical tuple/bracket separator: Model/Fmt.v must follow)",
     "tree equality on the implementation = equality of the serde JSON of Program after deleting src_range/error_range/"
-    "{start,end} position objects (harness/src/mode_format.rs); paragraph text tokens are compared verbatim",
+    "{start,end} position objects (harness/src/mode_format.rs); paragraph text tokens are compared verbatim, the grammar "
+    "keeps no other whitespace tokens in the tree",
     "known-finding classes of diff-stream programs are decided from the features of the implementation's own parse tree "
-    "(node/variant tags + structural features printed by the harness), the verdict (kf id) needs the class's symptom",
+    "(node/variant tags + structural features printed by the harness); the verdict (kf id) needs one of the class's symptoms "
+    "(perr / tree differs / not idempotent / formatter panic); a program with several defective constructs is attributed to "
+    "the first class in the order of Model/Fmt.v diff_classes",
+    "sources that do not parse (perr), and sources on which the harness had to be killed (hang: pathological backtracking "
+    "of the dev-profile parser on the *source*, see C09) are skipped (adv source-does-not-parse)",
 ]
 
 # ---------------------------------------------------------------------------------------------- modelled subset
@@ -340,6 +352,8 @@ def fixed_model_cases(rng):
     one(("tup", [])); one(("tup", [n1, n2])); one(("set", [])); one(("set", [va])); one(("rec", [("a", ("ks", "u8"), n1)]))
     one(("slice", "x", [("brk", [("all",), ("range", n1, False, n2)]), ("dot", "a")]))
     one(("trans", ("paren", ("term", va, [("add", vb)])))); one(("neg", ("trans", va))); one(("not", ("not", va)))
+    xa = ("slice", "x", [("dot", "a")])
+    one(("tup", [xa, vb])); one(("tup", [xa, n1])); one(("slice", "z", [("brk", [xa, ("term", vb, [("add", n1)])])]))
     for a in AOPS: out.append(model_case([("opasg", [], "x", a, n1)], rng, 0.0, "model-fixed"))
     out.append(model_case([("def", True, "x", ("km", "u8", ["2", "3"]), ("mat", [[n1, n2, n3], [n3, n2, n1]]))], rng, 0.0, "model-fixed"))
     out.append(model_case([("asg", "x", [("brk", [n1, n2])], n3)], rng, 0.0, "model-fixed"))
@@ -422,6 +436,8 @@ def gen_items(rng):
     add("md-subsubtitle", "(1.1) Sub section\n\n%s" % W())
     add("md-inline-strong", "Hello **bold** and *em* text.")
     add("md-inline-code", "Use `code` here.")
+    add("md-inline-code-escape", "The `\\\\` operator and a tab `\\\\t`.")
+    add("md-figure-table", "| ![caption a](img1.jpg) | ![caption b](img2.jpg) |")
     add("md-inline-strike", "Hello ~strike~ text.")
     add("md-inline-underline", "Hello __under__ text.")
     add("md-inline-highlight", "Hello !!high!! text.")
